@@ -1,6 +1,6 @@
 use std::{iter::Peekable, str::Chars, sync::Arc};
 
-use codemap::{File, Span};
+use codemap::{CodeMap, File, Span};
 
 const FORM_FEED: char = '\x0C';
 
@@ -156,11 +156,26 @@ impl Lexer {
         Self::new(buf, file.span, false)
     }
 
-    pub fn new_from_string(s: &str, entire_span: Span) -> Self {
-        let is_expanded = s.len() as u64 != entire_span.len();
+    /// Lex `s`, a string computed from the source text covered by `entire_span`.
+    ///
+    /// Positions inside `s` can only be mapped back into the source if `s` is that
+    /// text itself; otherwise every span is `entire_span`.
+    pub fn new_from_string(s: &str, entire_span: Span, map: &CodeMap) -> Self {
+        let is_expanded = map
+            .find_file(entire_span.low())
+            .source_slice(entire_span)
+            != s;
         let buf = TokenLexer::new(s.chars().peekable()).collect();
 
         Self::new(buf, entire_span, is_expanded)
+    }
+
+    /// Lex `s`, a string which is not the text covered by `entire_span`. Every span
+    /// is `entire_span`.
+    pub fn new_from_detached_string(s: &str, entire_span: Span) -> Self {
+        let buf = TokenLexer::new(s.chars().peekable()).collect();
+
+        Self::new(buf, entire_span, true)
     }
 
     fn new(buf: Vec<Token>, entire_span: Span, is_expanded: bool) -> Self {
